@@ -87,7 +87,7 @@ def build(g, chart, gvar):
         if kind == 'action':
             extra = "\nsend('b', k=v)" if ident == 0 else "\nnotify('note', k=v)"
             return "A(%d)\nv = v + 1" % ident + extra
-        base = c08.hook(kind, ident).replace('\nL.append(1)', '').replace('\nQ.append(1)', '')
+        base = c08.hook(kind, ident).replace('\nL.append(1)', '').replace('\nQ.append(1)', '').replace('\nBOX.n += 1', '')
         if kind == 'exit' and ident == 0:     # what active() says when the outermost state is exited ends up in the
             # context; only contracts call active() earlier in the micro step (a cache filled by a contract shows here)
             base += "\nseen = seen + [[active(n) for n in NAMES]]"
